@@ -106,6 +106,12 @@ func vfUpstreamTunnel(scheme string) {
 	cfg.ProxyLocalhost = AllowProxyLocalhost
 	u, _ := url.Parse(scheme + "://proxy.internal:3128")
 	cfg.UpstreamProxy = u
+	// the connect timeout bounds the dial and the CONNECT exchange with the upstream proxy; it must not bound the
+	// tunnel. Unset, or set to a value the model clock (arbitrary instants below 2^61 ns) cannot reach, so that the
+	// exchange is always in time: the timeout expiring is C12's subject
+	if vfrt.Choice("connect-timeout-configured", 2) == 1 {
+		cfg.ConnectTimeout = 1 << 62
+	}
 	hp := vfNewHTTPProxy(cfg)
 	max := 3
 	if vfrt.Thorough() {
@@ -152,6 +158,13 @@ func vfUpstreamTunnel(scheme string) {
 	br.Read(got)
 	vfrt.Assert(bytes.Equal(got, down), "upstream/bytes-behind-the-proxy-reply-reach-the-client")
 	vfrt.Assert(client.Closed >= 1 && upstream.Closed >= 1, "upstream/both-sockets-closed")
+	// bytes sent at any later time are delivered: whatever deadline bounded the CONNECT exchange is gone
+	if dl := upstream.Deadlines; len(dl) > 0 {
+		vfrt.Assert(dl[len(dl)-1].IsZero(), "upstream/no-deadline-of-the-connect-exchange-left-armed-on-the-upstream-socket")
+	}
+	if dl := upstream.ReadDeadlines; len(dl) > 0 {
+		vfrt.Assert(dl[len(dl)-1].IsZero(), "upstream/no-deadline-of-the-connect-exchange-left-armed-on-the-upstream-socket")
+	}
 }
 
 // vfRWCBody has the shape of the body net/http's Transport returns for a 101 response: the connection is an
